@@ -107,8 +107,10 @@ def oracle(T, D, c):
     if c["kind"] in ("olivine", "enstatite", "ortho"):
         if a1[6] > 1e-6 or a1[7] > 1e-6:
             f.append(f"rotated orthorhombic tensor has monoclinic/triclinic parts {a1[6]:.3e}, {a1[7]:.3e}")
-    if abs(np.sum(a1[3:8] ** 2) - a1[2] ** 2) > 1e-6 * max(1.0, a1[2] ** 2):
-        f.append("squared percentages of the symmetry classes do not add up to the squared percent anisotropy")
+        # (only claimed for orthorhombic tensors: for a general tensor the averaged SCCS axes are
+        #  not mutually orthogonal, so the "rotation" is not orthogonal and Pythagoras does not apply)
+        if abs(np.sum(a1[3:8] ** 2) - a1[2] ** 2) > 1e-6 * max(1.0, a1[2] ** 2):
+            f.append("squared percentages of the symmetry classes do not add up to the squared percent anisotropy")
     return f
 
 
